@@ -1,6 +1,7 @@
 import Psa.SortProofs
 import Psa.Eval
 import Psa.Generated.Tables
+import Psa.Generated.Facts
 /-! # C14 — evaluating a pod is pure and deterministic
 The model is a function of the pod. The one place where the Go code iterates a map — the pod's annotations — is an explicit
 list in the model, presented in *some* order; these theorems show the order is irrelevant to every verdict and every byte of
@@ -82,7 +83,12 @@ example :
       { annotations := [(b!"container.apparmor.security.beta.kubernetes.io/a", b!"bad"),
                         (b!"container.apparmor.security.beta.kubernetes.io/b", b!"unconfined")] } := by decide
 
+/-- tie obligation (F5): no shipped revision stores through, updates a map of, or sorts in place anything reached from the
+    pod metadata / spec parameters -/
+theorem C14_no_pod_writes : Generated.podWrites = [] := by decide
+
 #print axioms C14_rev_order_independent
 #print axioms C14_order_independent
 #print axioms C14_values_canonical
+#print axioms C14_no_pod_writes
 end PSA.Props
